@@ -50,9 +50,15 @@ def encIntersM (l : List Inter) : String :=
 def encNodes (c : Ctx) : String :=
   encList (c.nodes.map fun n => encList [encStr n.1, encAttrs n.2])
 
+/-- the declared columns of a block atom as loaded: atype, resname, resid, charge_group -/
+def encAtomCols (c : Ctx) : String :=
+  encList (c.nodes.map fun n => encList (["atype", "resname", "resid", "charge_group"].map fun k =>
+    encStr (match n.2.get k with | some v => reprJ v | none => "-")))
+
 def encDump (d : Dump) : String :=
   let blocks := d.blocks.map fun (k, (_, c)) =>
-    encList [encOptStr k, encList (c.nodes.map fun n => encStr n.1), encInters c.inters]
+    encList [encOptStr k, encList (c.nodes.map fun n => encStr n.1), encInters c.inters, encAtomCols c,
+             encOptInt c.nrexcl]
   let links := d.links.map fun (_, c) => encList [encNodes c, encInters c.inters, encInters c.removed]
   let mods := d.mods.map fun (k, (_, c)) => encList [encOptStr k, encNodes c, encInters c.inters]
   encList [encList blocks, encList links, encList mods]
@@ -156,7 +162,8 @@ def handle (_ : Unit) (toks : List Tok) : Unit × String :=
         let ls ← strs? ls
         match readITP itpIdx itpTab ls with
         | some bs => pure (encList (bs.map fun (k, (_, c)) =>
-            encList [encOptStr k, encList (c.nodes.map fun n => encStr n.1), encIntersM c.inters]))
+            encList [encOptStr k, encList (c.nodes.map fun n => encStr n.1), encIntersM c.inters, encAtomCols c,
+                     encOptInt c.nrexcl]))
         | none => pure "error"
     | [Tok.str "ffdisp", ls] => do
         -- dispatcher only (bodies), table and routes of the FF reader
@@ -182,6 +189,11 @@ def handle (_ : Unit) (toks : List Tok) : Unit × String :=
             let order := if dir.isSome then C13.Dir.readOrder (parsers.map (·.1)) ls else []
             pure (encList [encStr n, encList (order.map fun e => encStr e.name), encFF ff])
           | none => pure "error"
+    | [Tok.str "pyint", x] => do
+        let x ← x.str?
+        match pyInt? x with
+        | some i => pure ("ok " ++ encInt i)
+        | none => pure "error"
     | [Tok.str "splitext", n] => do
         let n ← n.str?
         pure (encList [encStr (C13.Dir.splitExt n), encStr (C13.Dir.basename n)])
